@@ -18,7 +18,8 @@
 
 use digest::{Output, OutputSizeUser};
 use hkdf::{Hkdf, HkdfExtract, HmacImpl, InvalidLength, InvalidPrkLength};
-use hpke::verif_model::{InternHash, LinHash, ScriptHash, LIN_K, LIN_SEED};
+use crate::sketch::{sketch_absorb, sketch_finish, sketch_new, Sketch};
+use hpke::verif_model::{EndsHash, InternHash, LinHash, ScriptHash, LIN_K, LIN_SEED};
 
 /// What the stub layer needs from a model hash: an incremental HMAC whose state is small enough to
 /// live inside the (opaque) hkdf objects.
@@ -376,5 +377,64 @@ impl FastHmac for ScriptHash {
             i += 1;
         }
         s.calls += 1;
+    }
+}
+
+// ---------------------------------------------------------------------------------------------
+// EndsHash instantiation: HMAC (RFC 2104, block = 8) over the O(1)-per-update sketch hash, for
+// inputs of symbolic length up to 64 KiB and beyond.
+// ---------------------------------------------------------------------------------------------
+#[derive(Clone, Copy)]
+#[repr(C)]
+pub struct EndsSt {
+    pub sk: Sketch,
+    pub k0: [u8; 8],
+}
+fn ends_k0(key: &[u8]) -> [u8; 8] {
+    let mut k0 = [0u8; 8];
+    if key.len() > 8 {
+        let mut s = sketch_new();
+        sketch_absorb(&mut s, key);
+        k0 = sketch_finish(&s);
+    } else {
+        let mut i = 0;
+        while i < 8 {
+            if i < key.len() {
+                k0[i] = key[i];
+            }
+            i += 1;
+        }
+    }
+    k0
+}
+impl FastHmac for EndsHash {
+    type St = EndsSt;
+    fn begin(key: &[u8]) -> EndsSt {
+        let k0 = ends_k0(key);
+        let mut ipad = [0u8; 8];
+        let mut i = 0;
+        while i < 8 {
+            ipad[i] = k0[i] ^ 0x36;
+            i += 1;
+        }
+        let mut st = EndsSt { sk: sketch_new(), k0 };
+        sketch_absorb(&mut st.sk, &ipad);
+        st
+    }
+    fn absorb(st: &mut EndsSt, data: &[u8]) {
+        sketch_absorb(&mut st.sk, data);
+    }
+    fn finish(st: &EndsSt, out: &mut [u8]) {
+        let mut opad = [0u8; 8];
+        let mut i = 0;
+        while i < 8 {
+            opad[i] = st.k0[i] ^ 0x5c;
+            i += 1;
+        }
+        let inner = sketch_finish(&st.sk);
+        let mut o = sketch_new();
+        sketch_absorb(&mut o, &opad);
+        sketch_absorb(&mut o, &inner);
+        out.copy_from_slice(&sketch_finish(&o));
     }
 }
